@@ -18,7 +18,7 @@ EXHAUSTIVE = {'quick': False, 'thorough': False}
 TIE = 'correspondence (reader model + per-chunk parse model evaluated in Coq on the same bytes, chunk size and mode)'
 ASSUMPTIONS = ['the violating characters are chosen outside the characters the alphabet tables accept by the (separately recorded) C06 defect',
                'column-count violations are decided by the specification only (error required), the model does not cover reshape failures']
-PARTIAL = ['record-marker formats (FASTQ/FASTA): the line theorem is proved for delimited formats; marker formats are tied by correspondence only']
+PARTIAL = []
 PER_FILE = 64
 
 TYS = {'bed3': '[CStr; CInt; CInt]', 'bed6': '[CStr; CInt; CInt; CStr; CStr; CStrand]'}
